@@ -132,8 +132,59 @@ package logdb
 //@ extern github.com/lni/dragonboat/v4/internal/logdb/kv (s IKVStore) BulkRemoveEntries
 //@ ghostset gIOFailed := old(gIOFailed) || result != nil
 //@ extern github.com/lni/dragonboat/v4/internal/logdb/kv (s IKVStore) GetWriteBatch
+// ---- what goes into a write batch (C09 / C04): a key object remembers which record of which replica it
+// was last set to name (ghost fields gkind: 1 entry, 2 entry batch, 3 hard state, 4 max index, 5 bootstrap,
+// 6 snapshot); reading its bytes (Key()) notes that descriptor together with the buffer handed out; a Put or
+// Delete of exactly that buffer records the descriptor (0 for any other buffer), the value's identity and,
+// for values of at least 8 bytes, the big-endian number in its first 8 bytes
+//@ ghost field Key.gkind int
+//@ ghost field Key.gshard int
+//@ ghost field Key.greplica int
+//@ ghost field Key.gindex int
+//@ ghost field IReusableKey.gkind int
+//@ ghost field IReusableKey.gshard int
+//@ ghost field IReusableKey.greplica int
+//@ ghost field IReusableKey.gindex int
+//@ ghost var gKK int
+//@ ghost var gKS int
+//@ ghost var gKR int
+//@ ghost var gKI int
+//@ ghost var gKBuf int
+//@ ghost var gPuts int
+//@ ghost var gPutKind int
+//@ ghost var gPutShard int
+//@ ghost var gPutReplica int
+//@ ghost var gPutIndex int
+//@ ghost var gPutBE64 int
+//@ ghost var gPutVal int
+//@ ghost var gPutValLen int
+//@ ghost var gDels int
+//@ ghost var gDelKind int
+//@ ghost var gDelShard int
+//@ ghost var gDelReplica int
+//@ ghost var gDelIndex int
+// gDelCnt[kind]: how many records of that kind of THE replica (gDelOfShard, gDelOfReplica) have been deleted from a batch
+//@ ghost var gDelCnt intmap
+//@ ghost var gDelOfShard int
+//@ ghost var gDelOfReplica int
 //@ extern github.com/lni/dragonboat/v4/internal/logdb/kv (wb IWriteBatch) Put
+//@ modifies gPuts, gPutKind, gPutShard, gPutReplica, gPutIndex, gPutBE64, gPutVal, gPutValLen
+//@ ghostset gPuts := old(gPuts) + 1
+//@ ghostset gPutKind := ite(ptr(arg0) == gKBuf, gKK, 0)
+//@ ghostset gPutShard := gKS
+//@ ghostset gPutReplica := gKR
+//@ ghostset gPutIndex := gKI
+//@ ghostset gPutVal := ptr(arg1)
+//@ ghostset gPutValLen := len(arg1)
+//@ ghostset gPutBE64 := ite(len(arg1) >= 8, arg1[0]*72057594037927936 + arg1[1]*281474976710656 + arg1[2]*1099511627776 + arg1[3]*4294967296 + arg1[4]*16777216 + arg1[5]*65536 + arg1[6]*256 + arg1[7], 0 - 1)
 //@ extern github.com/lni/dragonboat/v4/internal/logdb/kv (wb IWriteBatch) Delete
+//@ modifies gDels, gDelKind, gDelShard, gDelReplica, gDelIndex, gDelCnt
+//@ ghostset gDelCnt := ite(ptr(arg0) == gKBuf && gKS == gDelOfShard && gKR == gDelOfReplica, store(old(gDelCnt), gKK, old(gDelCnt)[gKK] + 1), old(gDelCnt))
+//@ ghostset gDels := old(gDels) + 1
+//@ ghostset gDelKind := ite(ptr(arg0) == gKBuf, gKK, 0)
+//@ ghostset gDelShard := gKS
+//@ ghostset gDelReplica := gKR
+//@ ghostset gDelIndex := gKI
 //@ extern github.com/lni/dragonboat/v4/internal/logdb/kv (wb IWriteBatch) Count
 //@ extern github.com/lni/dragonboat/v4/internal/logdb/kv (wb IWriteBatch) Destroy
 //@ extern github.com/lni/dragonboat/v4/internal/logdb/kv (wb IWriteBatch) Clear
@@ -157,12 +208,23 @@ package logdb
 //@ ensures old(gIOFailed) ==> gIOFailed
 //@ ghostset gRecSnapshot := ite(result == nil && ud.Snapshot.Index != 0 && ud.Snapshot.Index == gSnapIndex, 1, old(gRecSnapshot))
 
-//@ func (r *db) saveState [C10]
-//@ trusted writes into the in-memory write batch only (no store I/O)
+// verified (was trusted). C04 / C03 (term, vote and commit durable before anything is sent): a hard state that is
+// not empty and differs -- in term, vote OR commit -- from the one last recorded for this replica goes into the
+// write batch as exactly one record under the hard-state key of THIS replica; otherwise the batch is untouched
+//@ func (r *db) saveState [C10 C04 C03 C09]
+//@ noframe
+//@ nobounds
+//@ free requires r.cs != nil && r.cs.ps != nil
+//@ ensures gIOFailed == old(gIOFailed) && gDels == old(gDels)
+//@ ensures (st.Term != 0 || st.Vote != 0 || st.Commit != 0) && !(old(mk(raftio.NodeInfo, shardID, replicaID) in r.cs.ps) && old(r.cs.ps[mk(raftio.NodeInfo, shardID, replicaID)].Term) == st.Term && old(r.cs.ps[mk(raftio.NodeInfo, shardID, replicaID)].Vote) == st.Vote && old(r.cs.ps[mk(raftio.NodeInfo, shardID, replicaID)].Commit) == st.Commit) ==>
+//@    gPuts == old(gPuts) + 1 && gPutKind == 3 && gPutShard == shardID && gPutReplica == replicaID
+//@ ensures !((st.Term != 0 || st.Vote != 0 || st.Commit != 0) && !(old(mk(raftio.NodeInfo, shardID, replicaID) in r.cs.ps) && old(r.cs.ps[mk(raftio.NodeInfo, shardID, replicaID)].Term) == st.Term && old(r.cs.ps[mk(raftio.NodeInfo, shardID, replicaID)].Vote) == st.Vote && old(r.cs.ps[mk(raftio.NodeInfo, shardID, replicaID)].Commit) == st.Commit)) ==>
+//@    gPuts == old(gPuts)
 // the recorded end of a replica's log: the cache AND the write batch get the new max index
 //@ func (r *db) setMaxIndex [C10 C09]
 //@ noframe
 //@ nobounds
+//@ requires wb != nil
 //@ modifies gRecMaxIndex, gMaxIdxPuts, gLastMaxIdxPut
 //@ ensures gMaxIdxPuts == old(gMaxIdxPuts) + 1 && gLastMaxIdxPut == maxIndex && gIOFailed == old(gIOFailed)
 // recording entries cannot report an error, so a storage error met while recording (the batched
@@ -170,6 +232,7 @@ package logdb
 //@ func (r *db) saveEntries [C10 C09]
 //@ noframe
 //@ nobounds
+//@ requires wb != nil
 //@ modifies gIOFailed, gMaxIdxPuts, gLastMaxIdxPut, gRecMaxIndex
 //@ ensures gIOFailed == old(gIOFailed)
 //@ loop 1 invariant gIOFailed == old(gIOFailed)
@@ -239,13 +302,29 @@ package logdb
 //@ trusted sync.Pool
 //@ func (k *Key) SetEntryBatchKey [C10]
 //@ trusted writes the key buffer only
+//@ modifies k.gkind, k.gshard, k.greplica, k.gindex
+//@ ghostset k.gkind := 2
+//@ ghostset k.gshard := shardID
+//@ ghostset k.greplica := replicaID
+//@ ghostset k.gindex := batchID
 // gScanHigh: the entry index encoded by the most recent SetEntryKey (the exclusive upper key of a scan)
 //@ ghost var gScanHigh int
 //@ func (k *Key) SetEntryKey [C10]
 //@ trusted writes the key buffer only
 //@ ghostset gScanHigh := index
+//@ modifies k.gkind, k.gshard, k.greplica, k.gindex
+//@ ghostset k.gkind := 1
+//@ ghostset k.gshard := shardID
+//@ ghostset k.greplica := replicaID
+//@ ghostset k.gindex := index
 //@ func (k *Key) Key [C10]
 //@ trusted returns the key buffer
+//@ modifies gKK, gKS, gKR, gKI, gKBuf
+//@ ghostset gKK := k.gkind
+//@ ghostset gKS := k.gshard
+//@ ghostset gKR := k.greplica
+//@ ghostset gKI := k.gindex
+//@ ghostset gKBuf := ptr(result)
 //@ func (r *cache) getLastBatch [C10]
 //@ trusted in-memory cache bookkeeping
 // gLBcalls / gLBptr / gLBlen: how often the last-batch cache was refreshed, and with which batch
@@ -266,17 +345,58 @@ package logdb
 //@ trusted in-memory (no store I/O)
 //@ iface (c IContext) GetKey
 //@ ensures result != nil
+// the interface documents "a byte buffer with at least sz bytes in length"; proved for the in-repo context below
 //@ iface (c IContext) GetValueBuffer
+//@ ensures len(result) >= sz
+//@ func (c *context) GetValueBuffer [C09 C10]
+//@ free requires len(c.val) >= c.size
+//@ modifies c.size, c.val
+//@ ensures len(result) >= sz && len(c.val) >= c.size
 //@ iface (c IContext) GetEntryBatch
 //@ iface (c IContext) GetLastEntryBatch
 //@ iface (k IReusableKey) SetEntryBatchKey
+//@ modifies k.gkind, k.gshard, k.greplica, k.gindex
+//@ ghostset k.gkind := 2
+//@ ghostset k.gshard := shardID
+//@ ghostset k.greplica := replicaID
+//@ ghostset k.gindex := index
 //@ iface (k IReusableKey) SetEntryKey
+//@ modifies k.gkind, k.gshard, k.greplica, k.gindex
+//@ ghostset k.gkind := 1
+//@ ghostset k.gshard := shardID
+//@ ghostset k.greplica := replicaID
+//@ ghostset k.gindex := index
+//@ iface (k IReusableKey) SetStateKey
+//@ modifies k.gkind, k.gshard, k.greplica, k.gindex
+//@ ghostset k.gkind := 3
+//@ ghostset k.gshard := shardID
+//@ ghostset k.greplica := replicaID
+//@ ghostset k.gindex := 0
+//@ iface (k IReusableKey) SetMaxIndexKey
+//@ modifies k.gkind, k.gshard, k.greplica, k.gindex
+//@ ghostset k.gkind := 4
+//@ ghostset k.gshard := shardID
+//@ ghostset k.greplica := replicaID
+//@ ghostset k.gindex := 0
 //@ iface (k IReusableKey) Key
+//@ modifies gKK, gKS, gKR, gKI, gKBuf
+//@ ghostset gKK := k.gkind
+//@ ghostset gKS := k.gshard
+//@ ghostset gKR := k.greplica
+//@ ghostset gKI := k.gindex
+//@ ghostset gKBuf := ptr(result)
 //@ func (r *db) getWriteBatch [C10]
 //@ trusted returns the context's or a new write batch
 //@ ensures result != nil
-//@ func (r *cache) trySaveSnapshot [C10]
-//@ trusted in-memory cache bookkeeping
+// the snapshot-index cache (C09/C16: a snapshot newer than the one last recorded for the replica is never
+// skipped): the answer is "save" exactly when nothing is cached for the replica or the index is strictly
+// newer than the cached one; nothing changes for any other replica -- verified, not trusted
+//@ func (r *cache) trySaveSnapshot [C10 C09 C16]
+//@ free requires r.snapshotIndex != nil
+//@ modifies held(r.mu), entries(r.snapshotIndex)
+//@ ensures result == (!old(mk(raftio.NodeInfo, shardID, replicaID) in r.snapshotIndex) || index > old(r.snapshotIndex[mk(raftio.NodeInfo, shardID, replicaID)]))
+//@ ensures mk(raftio.NodeInfo, shardID, replicaID) in r.snapshotIndex && r.snapshotIndex[mk(raftio.NodeInfo, shardID, replicaID)] == ite(old(mk(raftio.NodeInfo, shardID, replicaID) in r.snapshotIndex), old(r.snapshotIndex[mk(raftio.NodeInfo, shardID, replicaID)]), index)
+//@ ensures forall k raftio.NodeInfo :: k != mk(raftio.NodeInfo, shardID, replicaID) ==> (k in r.snapshotIndex) == old(k in r.snapshotIndex) && r.snapshotIndex[k] == old(r.snapshotIndex[k])
 
 // If the underlying storage reports an error during a save, the save fails: it never returns success
 // C09 (correct length after a snapshot record): whenever a snapshot record goes into the batch, a
@@ -312,26 +432,44 @@ package logdb
 //@ ghost var gRecMaxIndex int
 //@ ghost var gBatchCommits int
 
-//@ func (r *db) saveBootstrap [C20]
-//@ trusted seven-line body: marshals the bootstrap record and puts it into the batch
+// verified (were trusted): exactly one record, under the bootstrap resp. hard-state key of THIS replica
+//@ func (r *db) saveBootstrap [C20 C09]
+//@ noframe
+//@ nobounds
 //@ modifies gRecBootstrap
 //@ ghostset gRecBootstrap := 1
-//@ func (r *db) saveStateAllocs [C20]
-//@ trusted five-line body: marshals the state and puts it into the batch
+//@ ensures gPuts == old(gPuts) + 1 && gDels == old(gDels) && gPutKind == 5 && gPutShard == shardID && gPutReplica == replicaID
+//@ func (r *db) saveStateAllocs [C20 C09]
+//@ noframe
+//@ nobounds
 //@ modifies gRecState
 //@ ghostset gRecState := 1
+//@ ensures gPuts == old(gPuts) + 1 && gDels == old(gDels) && gPutKind == 3 && gPutShard == shardID && gPutReplica == replicaID
 // gMaxIdxPuts / gLastMaxIdxPut: number of max-index records put into a write batch so far, and the
 // index carried by the last one
 //@ ghost var gMaxIdxPuts int
 //@ ghost var gLastMaxIdxPut int
+// verified (was trusted): exactly one record goes into the batch, under the max-index key of THIS replica, and
+// its 8 bytes are the big-endian index -- with or without a context
 //@ func (r *db) saveMaxIndex [C20 C09]
-//@ trusted puts the max index record into the batch
+//@ noframe
+//@ requires wb != nil
 //@ modifies gRecMaxIndex, gMaxIdxPuts, gLastMaxIdxPut
 //@ ghostset gRecMaxIndex := 1
 //@ ghostset gMaxIdxPuts := old(gMaxIdxPuts) + 1
 //@ ghostset gLastMaxIdxPut := index
-//@ func (r *db) saveRemoveNodeData [C20]
-//@ trusted deletes the state, bootstrap and max index records and the listed snapshot records from the batch
+//@ ensures gPuts == old(gPuts) + 1 && gDels == old(gDels)
+//@ ensures gPutKind == 4 && gPutShard == shardID && gPutReplica == replicaID && gPutValLen == 8 && gPutBE64 == index
+// verified (was trusted): the hard-state, bootstrap and max-index records of THIS replica are deleted once each,
+// then one snapshot record of this replica per listed snapshot, carrying that snapshot's index; nothing is put
+//@ func (r *db) saveRemoveNodeData [C20 C10 C09]
+//@ noframe
+//@ nobounds
+//@ ensures gPuts == old(gPuts) && gDels == old(gDels) + 3 + len(snapshots)
+//@ ensures gDelOfShard == shardID && gDelOfReplica == replicaID ==> gDelCnt[3] == old(gDelCnt)[3] + 1 && gDelCnt[5] == old(gDelCnt)[5] + 1 && gDelCnt[4] == old(gDelCnt)[4] + 1 && gDelCnt[6] == old(gDelCnt)[6] + len(snapshots)
+//@ loop 1 invariant gPuts == old(gPuts) && gDels == old(gDels) + 3 + ($i + 1)
+//@ loop 1 invariant gDelOfShard == shardID && gDelOfReplica == replicaID ==> gDelCnt[3] == old(gDelCnt)[3] + 1 && gDelCnt[5] == old(gDelCnt)[5] + 1 && gDelCnt[4] == old(gDelCnt)[4] + 1 && gDelCnt[6] == old(gDelCnt)[6] + ($i + 1)
+//@ loop 1 step gDelKind == 6 && gDelShard == shardID && gDelReplica == replicaID && gDelIndex == ss.Index
 //@ modifies gRecState, gRecBootstrap, gRecMaxIndex, gRecSnapshot
 //@ ghostset gRecState := 2
 //@ ghostset gRecBootstrap := 2
@@ -413,20 +551,49 @@ package logdb
 
 // ---------------------------------------------------------------- error flow of the remaining log store operations (C10)
 // a storage error is never turned into success
-//@ func (r *cache) getMaxIndex [C10]
-//@ trusted in-memory cache bookkeeping
+// the max-index and snapshot-index caches are exact maps keyed by (shard, replica): a read returns what the
+// last write for THAT replica stored, a write touches no other replica -- verified, not trusted
+//@ func (r *cache) getMaxIndex [C10 C09]
+//@ modifies held(r.mu)
+//@ ensures result1 == (mk(raftio.NodeInfo, shardID, replicaID) in r.maxIndex) && (result1 ==> result0 == r.maxIndex[mk(raftio.NodeInfo, shardID, replicaID)]) && (!result1 ==> result0 == 0)
 //@ func (r *cache) setMaxIndex [C10 C09]
-//@ trusted in-memory cache bookkeeping
-//@ func (r *cache) setSnapshotIndex [C10]
-//@ trusted in-memory cache bookkeeping
+//@ free requires r.maxIndex != nil
+//@ modifies held(r.mu), entries(r.maxIndex)
+//@ ensures mk(raftio.NodeInfo, shardID, replicaID) in r.maxIndex && r.maxIndex[mk(raftio.NodeInfo, shardID, replicaID)] == maxIndex
+//@ ensures forall k raftio.NodeInfo :: k != mk(raftio.NodeInfo, shardID, replicaID) ==> (k in r.maxIndex) == old(k in r.maxIndex) && r.maxIndex[k] == old(r.maxIndex[k])
+//@ func (r *cache) setSnapshotIndex [C10 C09]
+//@ free requires r.snapshotIndex != nil
+//@ modifies held(r.mu), entries(r.snapshotIndex)
+//@ ensures mk(raftio.NodeInfo, shardID, replicaID) in r.snapshotIndex && r.snapshotIndex[mk(raftio.NodeInfo, shardID, replicaID)] == index
+//@ ensures forall k raftio.NodeInfo :: k != mk(raftio.NodeInfo, shardID, replicaID) ==> (k in r.snapshotIndex) == old(k in r.snapshotIndex) && r.snapshotIndex[k] == old(r.snapshotIndex[k])
 //@ func (k *Key) SetMaxIndexKey [C10]
 //@ trusted writes the key buffer only
+//@ modifies k.gkind, k.gshard, k.greplica, k.gindex
+//@ ghostset k.gkind := 4
+//@ ghostset k.gshard := shardID
+//@ ghostset k.greplica := replicaID
+//@ ghostset k.gindex := 0
 //@ func (k *Key) SetStateKey [C10]
 //@ trusted writes the key buffer only
+//@ modifies k.gkind, k.gshard, k.greplica, k.gindex
+//@ ghostset k.gkind := 3
+//@ ghostset k.gshard := shardID
+//@ ghostset k.greplica := replicaID
+//@ ghostset k.gindex := 0
 //@ func (k *Key) setBootstrapKey [C10]
 //@ trusted writes the key buffer only
+//@ modifies k.gkind, k.gshard, k.greplica, k.gindex
+//@ ghostset k.gkind := 5
+//@ ghostset k.gshard := shardID
+//@ ghostset k.greplica := replicaID
+//@ ghostset k.gindex := 0
 //@ func (k *Key) setSnapshotKey [C10]
 //@ trusted writes the key buffer only
+//@ modifies k.gkind, k.gshard, k.greplica, k.gindex
+//@ ghostset k.gkind := 6
+//@ ghostset k.gshard := shardID
+//@ ghostset k.greplica := replicaID
+//@ ghostset k.gindex := index
 //@ func newKey [C10]
 //@ trusted allocates a key buffer
 //@ ensures result != nil
